@@ -294,37 +294,44 @@ def main(prop):
     quick = ck.tier == "quick"
     death = prop == "C13"
     try:
-        configs = [(2, 1, 2), (3, 1, 3), (4, 2, 2), (5, 2, 2), (3, 1, 2)]   # (records, batch size, cores)
+        # (records, batch size, cores): the first two are explored exhaustively - (2,1,2) runs the in-loop collector (a full group of
+        # `cores` batches), (2,1,3) the second copy of the collector after the loop ("leftover batches") with two workers
+        configs = [(2, 1, 2), (2, 1, 3), (3, 1, 3), (4, 2, 2), (5, 2, 2), (3, 1, 2), (5, 2, 4), (3, 1, 4)]
         inputs = {}
         for nrec, bs, cores in configs:
             if nrec not in inputs:
                 gaf, fasta = make_input(tmp, nrec)
                 inputs[nrec] = (gaf, fasta, reference(gaf, fasta, tmp))
-        # 1. exhaustive: every schedule (stutter-reduced) of 2 workers x 1 record
-        nrec, bs, cores = configs[0]
-        os.environ["GAFTOOLS_VERIF_BATCH_SIZE"] = str(bs)
-        gaf, fasta, ref = inputs[nrec]
-        stack = [[]]
-        n = 0
-        limit = 12000 if quick else 400000
-        while stack and n < limit:
-            prefix = stack.pop()
-            ch = fakemp.Chooser(prefix)
-            res, lines, world = one_schedule(R, gaf, fasta, cores, ch, death)
-            n += 1
-            judge(ck, prop, res, lines, world, ref, {"records": nrec, "batch": bs, "cores": cores, "choices": ch.trace})
-            for pos in range(len(prefix), len(ch.trace)):
-                for alt in range(ch.trace[pos] + 1, ch.arity[pos]):
-                    stack.append(ch.trace[:pos] + [alt])
-            if ck.violations:
-                break
-        ck.exhaustive = not stack
-        ck.extra["exhaustive_scope"] = "all schedules of 2 workers x 1 record%s (%d schedules, %s)" % (
-            " with at most one worker death at any point" if death else "", n, "exhausted" if not stack else "cut at the tier's limit")
+        # 1. exhaustive: every schedule (stutter-reduced) of 2 workers x 1 record, for both copies of the collector loop
+        limit = 6000 if quick else 300000
+        scopes = []
+        all_exhausted = True
+        for nrec, bs, cores in configs[:2]:
+            os.environ["GAFTOOLS_VERIF_BATCH_SIZE"] = str(bs)
+            gaf, fasta, ref = inputs[nrec]
+            stack = [[]]
+            n = 0
+            while stack and n < limit:
+                prefix = stack.pop()
+                ch = fakemp.Chooser(prefix)
+                res, lines, world = one_schedule(R, gaf, fasta, cores, ch, death)
+                n += 1
+                judge(ck, prop, res, lines, world, ref, {"records": nrec, "batch": bs, "cores": cores, "choices": ch.trace})
+                for pos in range(len(prefix), len(ch.trace)):
+                    for alt in range(ch.trace[pos] + 1, ch.arity[pos]):
+                        stack.append(ch.trace[:pos] + [alt])
+                if ck.violations:
+                    break
+            all_exhausted = all_exhausted and not stack
+            scopes.append("%s collector, 2 workers x 1 record%s: %d schedules, %s" % (
+                "in-loop" if cores == 2 else "leftover", " with at most one worker death at any point" if death else "", n,
+                "exhausted" if not stack else "cut at the tier's limit"))
+        ck.exhaustive = all_exhausted
+        ck.extra["exhaustive_scope"] = scopes
         # 2. random larger schedules
         nrand = 150 if quick else 6000
         for it in range(nrand):
-            nrec, bs, cores = ck.rng.choice(configs[1:])
+            nrec, bs, cores = ck.rng.choice(configs[2:])
             os.environ["GAFTOOLS_VERIF_BATCH_SIZE"] = str(bs)
             gaf, fasta, ref = inputs[nrec]
             ch = fakemp.Chooser(rng=ck.rng)
